@@ -160,6 +160,28 @@ func (f *frame) eval(e ast.Expr) *T {
 					break
 				}
 				fld := st.Field(ix)
+				if t.Op == "lit" {
+					// a field of a composite literal is the operand written for it (or the zero value)
+					var hit *T
+					keyed := len(t.A) > 0
+					for _, a := range t.A {
+						if a.Op != "kv" {
+							keyed = false
+						} else if a.K == fld.Name() {
+							hit = a.A[0]
+						}
+					}
+					if hit != nil {
+						t = hit
+						cur = fld.Type()
+						continue
+					}
+					if keyed || len(t.A) == 0 {
+						t = zeroTerm(fld.Type())
+						cur = fld.Type()
+						continue
+					}
+				}
 				t = mk("field", fld.Name(), t)
 				cur = fld.Type()
 			}
